@@ -46,6 +46,52 @@ func (fr *Frame) calleeKey(c *ssa.CallCommon) (key string, fn *ssa.Function) {
 }
 
 func (fr *Frame) doCall(st *State, instr ssa.Value, c *ssa.CallCommon, pos token.Pos) []Term {
+	res := fr.doCallInner(st, instr, c, pos)
+	if fr.spec != nil && len(fr.spec.AfterCalls) > 0 {
+		key := ""
+		if b, ok := c.Value.(*ssa.Builtin); ok {
+			key = "builtin." + b.Name()
+		} else {
+			key, _ = fr.calleeKey(c)
+		}
+		if key != "" {
+			fr.afterCall(st, key, c, res, pos)
+		}
+	}
+	return res
+}
+
+// afterCall assumes the rely conditions ("aftercall callee@n assume ...") attached to a call site.
+func (fr *Frame) afterCall(st *State, key string, c *ssa.CallCommon, res []Term, pos token.Pos) {
+	fc := fr.fc
+	ord := fr.siteOrd[c]
+	sk := shortKey(key)
+	names := []string{fmt.Sprintf("%s@%d", sk, ord)}
+	if i := strings.LastIndex(sk, "."); i >= 0 {
+		names = append(names, fmt.Sprintf("%s@%d", sk[i+1:], ord))
+	}
+	for _, name := range names {
+		for _, cl := range fr.spec.AfterCalls[name] {
+			env := &Env{fc: fc, fr: fr, st: st, old: fr.top().entry, vars: map[string]Term{}, pkgName: fr.fn.Pkg.Pkg.Name()}
+			if len(res) > 0 {
+				r := res[0]
+				if r.T == nil {
+					r.T = c.Signature().Results().At(0).Type()
+				}
+				env.vars["result"] = r
+			}
+			t, err := fc.evalClause(env, cl)
+			if err != nil {
+				fc.unsupp(pos, "aftercall %s: %v", name, err)
+				continue
+			}
+			fc.assume(st, t)
+			fc.w.assumed["rely condition assumed in "+funcKey(fr.fn)+" after "+name+": "+cl.Src] = true
+		}
+	}
+}
+
+func (fr *Frame) doCallInner(st *State, instr ssa.Value, c *ssa.CallCommon, pos token.Pos) []Term {
 	fc := fr.fc
 	if b, ok := c.Value.(*ssa.Builtin); ok {
 		fr.atCall(st, "builtin."+b.Name(), c, pos)
@@ -328,7 +374,13 @@ func (fr *Frame) contractCall(st *State, key string, spec *FuncSpec, fn *ssa.Fun
 		fc.assume(st, mk(fmt.Sprintf("(>= %s %s)", st.nextID.S, oldNext.S), SBool, nil))
 	}
 	if all {
-		comps = fc.sortedComps()
+		comps = nil
+		for _, c := range fc.sortedComps() {
+			if fc.w.isFinalComp(c) {
+				continue
+			}
+			comps = append(comps, c)
+		}
 	}
 	fr.havocComps(st, comps, pre)
 	fr.protectStack(st, pre, comps)
@@ -382,7 +434,19 @@ func (fr *Frame) unknownCall(st *State, key string, sig *types.Signature, fn *ss
 	st.nextID = fc.fresh("nid", SInt, nil)
 	fc.assume(st, mk(fmt.Sprintf("(>= %s %s)", st.nextID.S, oldNext.S), SBool, nil))
 	if all {
-		comps = fc.sortedComps()
+		comps = nil
+		for _, c := range fc.sortedComps() {
+			if strings.HasPrefix(c, "GH_") && (fn == nil || len(fn.Blocks) == 0) {
+				// ghost protocol state is changed only by functions whose contracts say so;
+				// external code and callbacks are assumed not to take or release our locks
+				continue
+			}
+			if fc.w.isFinalComp(c) {
+				continue // fields written only during construction keep their value
+			}
+			comps = append(comps, c)
+		}
+		fc.w.assumed["unknown external callees and callbacks do not change the ghost protocol state (locks held by this goroutine, root stores)"] = true
 	}
 	fr.havocComps(st, comps, preCall)
 	fr.protectStack(st, preCall, comps)
@@ -657,6 +721,11 @@ func (fc *FnCtx) storeTargets(addr ssa.Value, promoted map[*ssa.Alloc]bool, out 
 		name, _ := fc.compBox(et)
 		out[name] = true
 		return
+	case *ssa.FreeVar:
+		// a captured variable: always a variable box
+		name, _ := fc.compBox(et)
+		out[name] = true
+		return
 	}
 	name, _ := fc.compBox(et)
 	out[name] = true
@@ -822,8 +891,8 @@ func (fc *FnCtx) expandModifies(spec *FuncSpec) ([]string, bool) {
 		if strings.HasSuffix(m, "*") {
 			pre := strings.TrimSuffix(m, "*")
 			for _, c := range fc.sortedComps() {
-				if strings.HasPrefix(c, pre) {
-					out = append(out, c)
+				if strings.HasPrefix(c, pre) && !fc.w.isFinalComp(c) {
+					out = append(out, c) // a pattern never covers construction-only fields
 				}
 			}
 			continue
